@@ -5721,3 +5721,74 @@ def round6_rules(ctx):
                 ctx._ob(good)
                 if not good:
                     ctx.violate('who-may-write|%s|%s' % (p, field), '`%s` changes `%s`: a savepoint created (deleted) in this transaction must stay on its list until the transaction ends, or abort (commit) will not release its tracker registration' % (nm, field), fn_, line)
+
+
+_BUILDER_NEW = ('LeafBuilder::new', 'BranchBuilder::new')
+_BUILDER_BUILD = ('LeafBuilder::build', 'BranchBuilder::build', 'LeafBuilder::build_split', 'BranchBuilder::build_split')
+_BUILDER_NOFILL = ('should_split', 'required_bytes', 'to_single_child', 'into_parts', 'push_key', 'replace_child')
+
+
+def builder_fill_rules(ctx):
+    """C10.R12: a page builder is given its entries before the page is built.  Per builder local:
+    the `new` call N, the calls that take `&mut` of that builder (fills) and the `build` call B that
+    consumes it; B is reachable from N only through a fill (a loop whose body fills counts as one:
+    which iterations push is a value question -- the builders skip the deleted / replaced index)."""
+    ctx.set_rule('C10.R12', 'every leaf / branch builder receives its entries (children) on every path between its creation and build()')
+    n_builders = 0
+    for f in ctx.facts.fn_list:
+        if 'tests::' in f.path or f.path.startswith('tree_store::btree_base::LeafBuilder') or f.path.startswith('tree_store::btree_base::BranchBuilder'):
+            continue
+        news = [c for c in f.calls if any(c.matches(p) for p in _BUILDER_NEW) and not f.blocks[c.bb]['c'] and not c.t['d'][1]]
+        if not news:
+            continue
+        builds = [c for c in f.calls if any(c.matches(p) for p in _BUILDER_BUILD) and not f.blocks[c.bb]['c']]
+        cand = []
+        for c in f.calls:
+            if f.blocks[c.bb]['c'] or c in builds or c in news:
+                continue
+            if c.callee.split('::')[-1] in _BUILDER_NOFILL:
+                continue
+            for a in c.t['a']:
+                if a[0] != 'k' and not a[1][1]:
+                    ty = f.local_ty(a[1][0])
+                    if ty.startswith('&mut') and ('LeafBuilder' in ty or 'BranchBuilder' in ty):
+                        cand.append((c, a))
+                        break
+        nxt = [c for c in f.calls if c.matches('Iterator::next') and not f.blocks[c.bb]['c']]
+        for n in news:
+            kind = 'LeafBuilder' if n.matches('LeafBuilder::new') else 'BranchBuilder'
+            mine_b = [b for b in builds if b.t['a'] and b.t['a'][0][0] != 'k' and n.bb in core.flow_sources(f, b.t['a'][0])[1]]
+            if not mine_b:
+                continue  # handed to a helper or returned: the callee / caller is checked
+            fills = [c for (c, a) in cand if n.bb in core.flow_sources(f, a)[1]]
+            n_builders += 1
+            npt = cpoint(n)
+            ok_ = bool(fills)
+            ctx._ob(ok_, ctx.sample('sites', f, n.t.get('fl'), '%s created here is filled by %s' % (kind, sorted({c.callee.split('::')[-1] for c in fills}))))
+            if not ok_:
+                ctx.violate('floor|%s|%s-fill' % (f.path, kind), 'a %s is created and built without ever receiving an entry' % kind, f, n.t.get('fl'))
+                continue
+            # loops that contain a fill count as the fill (their body is checked per iteration)
+            loop_fills, heads, unknown_cycle = [], [], False
+            for c in fills:
+                r = core.reach(f, start=(c.bb, len(f.blocks[c.bb]['s'])))
+                in_cycle = any(f.succ(bb_)[si_][0] == c.bb for (bb_, si_) in r['edges'])
+                if not in_cycle:
+                    continue
+                hs = []
+                for h in nxt:
+                    rh = core.reach(f, start=(h.bb, len(f.blocks[h.bb]['s'])), cut_blocks={m.bb for m in nxt if m.bb != h.bb})
+                    if c.bb in rh['term'] and h.bb in r['term']:
+                        hs.append(h)
+                if hs:
+                    loop_fills.append(c)
+                    heads.extend(hs)
+                else:
+                    unknown_cycle = True
+            if unknown_cycle:
+                ctx.note('%s: a fill of the %s sits in a loop without an iterator header; order not decided' % (f.path, kind))
+                continue
+            before = [cpoint(c) for c in fills] + [cpoint(h) for h in heads]
+            ctx.order(f, before, [cpoint(b) for b in mine_b], start=npt,
+                      what='%s::build reached only after the builder was filled' % kind)
+    ctx.check(n_builders >= 14, 'floor|builders', 'expected at least 14 locally built page builders, found %d' % n_builders)
